@@ -1,0 +1,32 @@
+//go:build verif
+
+package txwatcher
+
+import (
+	"sync/atomic"
+	"time"
+)
+
+// Verification hooks, only compiled with `-tags verif`: they let a harness
+// shorten the block polling interval of the rpc tx watcher.
+
+var (
+	verifTickNanos atomic.Int64
+	verifPollNanos atomic.Int64
+)
+
+// VerifSetPolling overrides the block watcher tick (built-in 500ms) and the
+// idle sleep of the dispatch loop (built-in 100ms). Zero keeps the built-in.
+func VerifSetPolling(tick, poll time.Duration) {
+	verifTickNanos.Store(int64(tick))
+	verifPollNanos.Store(int64(poll))
+}
+
+func verifTick(d time.Duration) time.Duration {
+	if v := verifTickNanos.Load(); v > 0 {
+		return time.Duration(v)
+	}
+	return d
+}
+
+func verifPollSleep() time.Duration { return time.Duration(verifPollNanos.Load()) }
